@@ -37,6 +37,15 @@ META = {
     "C19": dict(engine="atomdiff", technique="runtime monitoring: lock-step differential execution against std::atomic (reference model) with UBSan, random sequences + exhaustive 8-bit single operations + spurious-failure contract, FIBER and THREAD backends",
                 text="Held on the executions explored: every operation C19 lists x T in {bool, (u)int8..64, int*, float, double} x boundary/random operands x random memory orders; the 8-bit single-operation space is enumerated completely.",
                 note="std::atomic of libstdc++ is the trusted reference; NaN results of arithmetic compare equal regardless of sign/payload.", ref="DESIGN.md §3 C19"),
+    "C13": dict(engine="fiberx+rt", technique="runtime monitoring: per-await resume counter, awaited-really-complete check (producer stamp + canary), executor tag after resumption, coroutine Result check, tracked frame locals, deadlock detection; with and without symmetric transfer; TSan/ASan real-thread passes",
+                text="Held on the executions explored: Future/Task/SharedFuture coroutines x 11 awaitable forms x ready/racing/late sources x value/error/exception x unique/shared x live/stopped target executor.",
+                note="'The coroutine's own executor' is what co_await CurrentExecutor() reports before the await (see DESIGN note N5).", ref="DESIGN.md §3 C13"),
+    "C14": dict(engine="fiberx+rt", technique="runtime monitoring: overlap counter, grant counter, FIFO grant-order check on one worker, executor tag after UnlockOn/sticky Unlock, plain-variable happens-before check (TSan), deadlock detection; all four option combinations, with and without symmetric transfer",
+                text="Held on the executions explored: 2-5 coroutines x 1-3 rounds x 6 locking forms x 4 unlocking forms on 1-3 workers.",
+                note="Executors keep accepting work until every coroutine finished.", ref="DESIGN.md §3 C14/C15"),
+    "C15": dict(engine="fiberx+rt", technique="runtime monitoring: reader/writer overlap counters, grant counter, both-modes-free-at-end check, deadlock detection; all four option combinations, with and without symmetric transfer; TSan/ASan real-thread passes",
+                text="Held on the executions explored: 2-6 reader/writer coroutines x 1-3 rounds x 8 locking forms on 1-3 workers.",
+                note="Executors keep accepting work until every coroutine finished.", ref="DESIGN.md §3 C14/C15"),
 }
 
 ALL = ["C%02d" % i for i in range(1, 21)]
